@@ -6,10 +6,11 @@ HERE = os.path.dirname(os.path.dirname(os.path.abspath(__file__)))
 SEEDED = "/verif/seeded"
 out_path = sys.argv[1] if len(sys.argv) > 1 else os.path.join(SEEDED, "RESULTS.json")
 rows = []
-for name in sorted(os.listdir(SEEDED)):
+JOBS = int(os.environ.get("SEEDALL_JOBS", "1"))
+
+
+def one(name):
     d = os.path.join(SEEDED, name)
-    if not os.path.isfile(os.path.join(d, "patch.diff")):
-        continue
     meta = json.load(open(os.path.join(d, "meta.json")))
     prop = meta["property"]
     r = subprocess.run([os.path.join(HERE, "tools", "seedtest.py"), d, prop], capture_output=True, text=True)
@@ -19,7 +20,7 @@ for name in sorted(os.listdir(SEEDED)):
         res = {"error": (r.stdout + r.stderr)[-500:]}
     ck = (res.get("checks") or {}).get(prop, {})
     others = {}
-    if not ck.get("detected") and res.get("tests_ok") and res.get("demo_ok"):
+    if not ck.get("detected") and res.get("tests_ok") and res.get("demo_ok") and not meta.get("not_detected_because"):
         # missed by the property's own check: do the checks of neighbouring properties see it?
         gen_group = ["C18", "C02", "C03", "C01", "C15", "C16", "C19", "C17", "C20", "C14"]
         core_group = ["C04", "C05", "C06", "C09", "C07", "C08", "C10"]
@@ -29,11 +30,23 @@ for name in sorted(os.listdir(SEEDED)):
             others = {k: v.get("detected") for k, v in (json.loads(r2.stdout).get("checks") or {}).items()}
         except Exception:
             others = {}
-    rows.append({"other_checks": others, "id": name, "property": prop, "patch_applies": res.get("patch_applies"),
-                 "tests_ok": res.get("tests_ok"), "demo_ok": res.get("demo_ok"),
-                 "detected": ck.get("detected"), "exit": ck.get("exit"), "clauses": ck.get("clauses"),
-                 "error": res.get("error")})
+    row = {"other_checks": others, "id": name, "property": prop, "patch_applies": res.get("patch_applies"),
+           "tests_ok": res.get("tests_ok"), "demo_ok": res.get("demo_ok"),
+           "detected": ck.get("detected"), "exit": ck.get("exit"), "clauses": ck.get("clauses"),
+           "by_design_not_flagged": meta.get("not_detected_because"), "error": res.get("error")}
     print(f"| {name} | {prop} | {'confirmed' if res.get('tests_ok') and res.get('demo_ok') else 'NOT CONFIRMED'} | "
           f"{'DETECTED' if ck.get('detected') else 'missed (exit %s)' % ck.get('exit')} | {', '.join((ck.get('clauses') or [])[:2])}"
-          f"{' caught by ' + ','.join(k for k, v in others.items() if v) if any(others.values()) else ''} |", flush=True)
-    json.dump(rows, open(out_path, "w"), indent=1)
+          f"{' caught by ' + ','.join(k for k, v in others.items() if v) if any(others.values()) else ''}"
+          f"{' (outside the property by design)' if meta.get('not_detected_because') else ''} |", flush=True)
+    return row
+
+
+names = [n for n in sorted(os.listdir(SEEDED)) if os.path.isfile(os.path.join(SEEDED, n, "patch.diff"))]
+only = os.environ.get("SEEDALL_ONLY")
+if only:
+    names = [n for n in names if n.startswith(tuple(only.split(",")))]
+from concurrent.futures import ThreadPoolExecutor
+with ThreadPoolExecutor(JOBS) as ex:
+    for row in ex.map(one, names):
+        rows.append(row)
+        json.dump(rows, open(out_path, "w"), indent=1)
